@@ -256,6 +256,14 @@ def gen_plan(rng, tier: str, idx: int, prop: str) -> dict:
                              {"at": "index", "m": rng.randint(0, 6)}))
             plan["faults"].append({"tracker": j, "kind": kind, "msg": _pick(rng, (None, "", "stop-%d" % rng.randrange(100))),
                                    **at})
+    # -- an earlier use of the same objects: the equation, the initial state and (entry 'controller') the solver -
+    # sometimes the controller - have already served another run with another range and step.  (Drawn last so that
+    # the rest of a plan is the same as before this element existed.)
+    if rng.random() < 0.25:
+        plan["prior"] = {"n": rng.randint(1, 7), "dt_factor": _pick(rng, (1.0, 0.5, 0.25, 1.0, 0.37)),
+                         "t_start": _pick(rng, (0.0, t_start, t_start + 1.0, -1.0, t_end)),
+                         "tracker": rng.random() < 0.5, "same_solver": rng.random() < 0.7,
+                         "same_controller": rng.random() < 0.3, "frac": _pick(rng, (0.0, 0.0, 0.5, 0.25))}
     return plan
 
 
@@ -539,8 +547,19 @@ def _run_once(plan, *, trackers_mode: str, faults_resolved=(), probe_stepper=Tru
         kw["maxiter"] = 500
     out = {"rec": rec, "clock": clk, "extras": extras, "objs": objs, "exception": None, "autonomous": autonomous,
            "state0": state0, "before": before}
+    prior = plan.get("prior")
+    if prior:
+        dt_p = plan["dt"] * prior["dt_factor"]
+        range_p = (prior["t_start"], prior["t_start"] + (prior["n"] + prior["frac"]) * dt_p)
+
+        def prior_trackers():
+            return [pde.DataTracker(lambda f, t: float(t), interrupts=1.7 * dt_p)] if prior["tracker"] else None
     try:
         if plan["entry"] == "solve":
+            if prior:
+                simclock.install(simclock.SimClock({"profile": "steady", "seed": 1, "max_reads": 100000}))
+                eq.solve(state0, range_p, dt=dt_p, tracker=prior_trackers(), solver=plan["solver"], backend=plan["backend"], **kw)
+                simclock.install(clk)
             res, info = eq.solve(state0, t_range, dt=plan["dt"], tracker=tr_arg, solver=plan["solver"],
                                  backend=plan["backend"], ret_info=True, **kw)
             out["info"] = info
@@ -563,7 +582,23 @@ def _run_once(plan, *, trackers_mode: str, faults_resolved=(), probe_stepper=Tru
                     return probed
 
                 solver.make_stepper = make_stepper
-            controller = Controller(solver, t_range=t_range, tracker=tr_arg)
+            controller = None
+            if prior:
+                from pde.trackers.base import TrackerCollection
+
+                simclock.install(simclock.SimClock({"profile": "steady", "seed": 1, "max_reads": 100000}))
+                solver_p = solver if prior["same_solver"] else SolverBase.from_name(plan["solver"], pde=eq, backend=plan["backend"], **kw)
+                controller_p = Controller(solver_p, t_range=range_p, tracker=prior_trackers())
+                controller_p.run(state0, dt_p)
+                rec.stepper.clear()
+                rec.dt_seen = 0.0
+                simclock.install(clk)
+                if prior["same_solver"] and prior["same_controller"]:
+                    controller = controller_p
+                    controller.t_range = t_range
+                    controller.trackers = TrackerCollection.from_data(tr_arg)
+            if controller is None:
+                controller = Controller(solver, t_range=t_range, tracker=tr_arg)
             res = controller.run(state0, plan["dt"])
             out["info"] = controller.diagnostics
             out["solver_info"] = solver.info
@@ -1123,6 +1158,12 @@ def simplify(plan):
             yield variant(lambda p, v=new_n: p["t_end_spec"].update(n=v))
     if plan["clock"]["profile"] != "steady":
         yield variant(lambda p: p["clock"].update(profile="steady"))
+    if plan.get("prior"):
+        yield variant(lambda p: p.pop("prior"))
+        pr = plan["prior"]
+        for k, v in (("tracker", False), ("same_controller", False), ("n", 1), ("frac", 0.0), ("dt_factor", 1.0), ("t_start", 0.0)):
+            if pr[k] != v:
+                yield variant(lambda p, k=k, v=v: p["prior"].update({k: v}))
     if plan.get("use_auto"):
         yield variant(lambda p: p.update(use_auto=False))
     if plan["t_start"] != 0.0:
